@@ -1,5 +1,6 @@
 import EvermintModel.Facts.GenCode
 import EvermintModel.Base.GoSemLemmas
+import EvermintModel.Facts.TieAnte
 /-!
 Tie theorems for C14: the keys of the transaction indexer (`/repo/indexer/kv_indexer.go`), **as translated from the Go source on
 this run**: `TxIndexKey(height, ethTxIndex)` — the key under which the hash of the transaction at a (block, index) position is
@@ -269,6 +270,18 @@ theorem tie_tx_index_key_order_index (h i1 i2 : Int) (hi1 : 0 ≤ i1) (hlt : i1 
   apply List.append_left_lt
   rw [toU_of_nonneg i1 ⟨hi1, by omega⟩, toU_of_nonneg i2 ⟨by omega, by omega⟩]
   apply tie_height_bytes_order <;> omega
+
+/-- **the indexer's filter is the ante chain's lane classifier**: `indexer.isEthTx` — by which `IndexBlock` decides whether a
+    transaction of the block gets an index entry — is, as generated from today's source, `dlanteutils.IsEthereumTx`, the very
+    function by which the dual-lane ante handler routes a transaction to the Ethereum lane -/
+theorem tie_indexer_is_eth_tx (tx : types_Tx) : indexer_isEthTx tx = utils_IsEthereumTx tx := by
+  unfold indexer_isEthTx
+  cases utils_IsEthereumTx tx <;> rfl
+
+/-- over the model's transactions: indexed ⇔ `Ante.isEthereumTx` (a single Ethereum message with exactly the Ethereum extension option) —
+    a transaction executed on the Ethereum lane is never skipped by the indexer, a Cosmos-lane one never indexed; total (no panic) -/
+theorem tie_indexer_filter_is_lane (t : Ante.Tx) : indexer_isEthTx (TieAnte.txView t true) = some (Ante.isEthereumTx t) := by
+  rw [tie_indexer_is_eth_tx]; exact TieAnte.tie_is_ethereum_tx t
 
 example : indexer_TxIndexKey 258 3 = some [2, 0, 0, 0, 0, 0, 0, 1, 2, 0, 0, 0, 0, 0, 0, 0, 3] := by decide
 
